@@ -52,6 +52,13 @@ Definition uf_name (u : ufield) : bytes :=
   | None, None => []
   end.
 
+Definition uf_field_names (u : ufield) : list bytes :=
+  match u_msg u, u_struct u with
+  | Some m, _ => map (fun p => f_name (snd p)) (m_fields m)
+  | None, Some s => map f_name (s_fields s)
+  | None, None => []
+  end.
+
 (* transitive struct usage: iterate to a fixpoint (order-independent result; proved separately) *)
 Definition usage := list (bytes * list bytes).
 Fixpoint lookup (n : bytes) (u : usage) : option (list bytes) :=
@@ -97,6 +104,9 @@ Definition validate (f : file) : bool :=
       forallb (fun m => negb (has_dup (map (fun p => f_name (snd p)) (m_fields m)))) (messages f) &&
       forallb (fun u => negb (has_dup (map (fun p => uf_name (snd p)) (un_fields u)))) (unions f) &&
       opcodes_ok [] (map s_opcode (structs f) ++ map m_opcode (messages f) ++ map un_opcode (unions f)) &&
+      (* union branches: their names against the primitives, the top level names and each other; their field names *)
+      (match names_ok custom (flat_map (fun u => map (fun p => uf_name (snd p)) (un_fields u)) (unions f)) with Some _ => true | None => false end) &&
+      forallb (fun u => forallb (fun p => negb (has_dup (uf_field_names (snd p)))) (un_fields u)) (unions f) &&
       let all := custom ++ prims in
       forallb (fun s => forallb (fun fd => type_defined all (f_type fd)) (s_fields s)) (structs f) &&
       forallb (fun m => forallb (fun p => type_defined all (f_type (snd p))) (m_fields m)) (messages f) &&
